@@ -20,6 +20,11 @@ def run(model, rep, tier):
     bases_first_premises(ctx, rep, 'C10.R2')
     from . import c03
     c03.r2_single_ordering_source(ctx, rep, R='C10.R3')
+    rep.rule('C10.R5', 'each selected layer is run exactly once across the processes of a run: a '
+             'child started for --resume-layer NAME keeps exactly the layer whose name equals NAME '
+             '(the parent starts one child per remaining layer)')
+    from .common import child_keeps_only_own_layer
+    child_keeps_only_own_layer(ctx, rep, 'C10.R5')
     r4_unit_first_premises(ctx, rep)
     rep.units['cfg'] = ctx.cfg_stats
 
